@@ -21,6 +21,17 @@ def check(case):
     d = oracle.build_dissim(spec)
     with backends.backend(mode):
         best = lib_call("best-alignment", c.get_best_alignment, d)
+    # history: the same objects again (state carried by the dissimilarity or the continuum between calls)
+    with backends.backend(mode):
+        soft2 = lib_call("soft-alignment[second call]", c.get_best_soft_alignment, d)
+        best2 = lib_call("best-alignment[second call]", c.get_best_alignment, d)
+    if not oracle.close(float(soft2.disorder), info["lib"], rel=1e-6):
+        raise Violation("soft-disorder-changes-between-identical-calls", f"{info['lib']} then {float(soft2.disorder)}")
+    if not oracle.close(float(best2.disorder), float(best.disorder), rel=1e-6):
+        raise Violation("best-disorder-changes-between-identical-calls", f"{float(best.disorder)} then {float(best2.disorder)}")
+    per0 = oracle.per_annotator(cont)
+    preds.check_reported_disorders(best2, preds.check_partition(best2, per0, "best[second call]"), spec, per0, "best[second call]")
+    preds.check_reported_disorders(soft2, preds.check_cover(soft2, per0, "soft[second call]"), spec, per0, "soft[second call]")
     soft_d, best_d = info["lib"], float(best.disorder)
     if soft_d > best_d + oracle.REL_TOL * max(1.0, abs(best_d)):
         raise Violation("soft-exceeds-best", f"soft {soft_d} > best {best_d}")
